@@ -42,6 +42,21 @@ class X86PrologueEpilogueInsertion(ModulePass):
         if not used_callee_preserved_registers:
             return
 
+        # The pushes below move rsp: rebase every rsp-relative access of the body
+        # (e.g. the loads of stack-passed arguments) by the size of the save area.
+        save_area_size = 8 * len(used_callee_preserved_registers)
+        for op in func.walk():
+            offset = op.attributes.get("memory_offset")
+            memory = getattr(op, "memory", None)
+            if (
+                isinstance(offset, builtin.IntegerAttr)
+                and memory is not None
+                and memory.type == RSP
+            ):
+                op.attributes["memory_offset"] = builtin.IntegerAttr(
+                    offset.value.data + save_area_size, offset.type
+                )
+
         builder = Builder(InsertPoint.at_start(func.body.blocks[0]))
         sp_register = builder.insert(x86.GetRegisterOp(RSP))
 
